@@ -293,7 +293,10 @@ where
     fn on_record(&self, id: &Id, values: &Record<'_>, ctx: Context<'_, S>) {
         let span = ctx.span(id).unwrap();
         if let Some(id) = self.captured_id(&span) {
-            self.lock().on_record(id, TracedValues::from_record(values));
+            // Values are rendered before the storage is locked: `Debug` / `Display` implementations
+            // are foreign code that may panic or emit tracing events of its own.
+            let values = TracedValues::from_record(values);
+            self.lock().on_record(id, values);
         };
     }
 
@@ -307,8 +310,9 @@ where
         } else {
             None
         };
-        self.lock()
-            .push_event(event.metadata(), TracedValues::from_event(event), parent_id);
+        // See `on_record()` for why the values are rendered first.
+        let values = TracedValues::from_event(event);
+        self.lock().push_event(event.metadata(), values, parent_id);
     }
 
     fn on_enter(&self, id: &Id, ctx: Context<'_, S>) {
